@@ -111,6 +111,19 @@ def family(name: str, tier: str):
             for _ in range(depth):
                 a, b = ["struct", [["bool"], a]], ["struct", [["bool"], b]]
             yield ["seq", [["union", [a, b]], ["struct", [b, a]]]]
+    elif name == "nested-arrays":
+        # arrays of arrays (only constructible through the public constructors): the alignment is that of the innermost element
+        comps = [["struct", [["uint", 8, "s"]]], ["struct", [["bool"]]], ["union", [["bool"], ["uint", 8, "s"]]], ["delim", ["struct", [["uint", 8, "s"]]], 16], ["struct", []], ["uint", 3, "s"], ["bool"], ["varr", ["struct", [["bool"]]], 2]]
+        for c in comps:
+            for outer_k, inner_k in itertools.product(("farr", "varr"), repeat=2):
+                arr = [outer_k, [inner_k, c, 2], 2]
+                yield arr
+                for lead in (["bool"], ["uint", 5, "s"], ["uint", 8, "s"]):
+                    yield ["struct", [lead, arr, ["bool"]]]
+                yield ["union", [["bool"], arr]]
+                yield ["delim", ["struct", [["bool"], arr]], L.tmax(["struct", [["bool"], arr]]) + 8]
+            yield ["struct", [["uint", 3, "s"], ["farr", ["farr", ["farr", c, 2], 1], 2], ["bool"]]]
+            yield ["struct", [["bool"], ["varr", ["farr", ["varr", c, 2], 3], 2], ["bool"]]]
     elif name == "colliders":
         # sequences of types, built one after the other in ONE process, whose elements / variants / fields differ as sets but agree
         # in min, max and residues mod 32
@@ -162,7 +175,7 @@ ALIAS_POOL = [
     ["union", [["bool"], ["uint", 8, "s"]]], ["union", [["uint", 8, "s"], ["bool"]]], ["union", [["uint", 8, "s"], ["uint", 56, "s"]]], ["union", [["uint", 8, "s"], ["uint", 24, "s"], ["uint", 56, "s"]]],
     ["delim", ["struct", [["uint", 8, "s"]]], 32], ["delim", ["struct", [["uint", 8, "s"], ["uint", 16, "s"]]], 32], ["delim", ["struct", [["uint", 8, "s"]]], 64], ["delim", ["union", [["bool"], ["uint", 8, "s"]]], 32],
 ]
-FAMILIES_QUICK = [("prims", 1), ("arrays", 4), ("boundary", 4), ("colliders", 4), ("medium", 8), ("union-constants", 1), ("depth1s", 8), ("depth1u", 8), ("depth2s", 48), ("depth2u", 32), ("aliases", 1)]
+FAMILIES_QUICK = [("prims", 1), ("arrays", 4), ("boundary", 4), ("colliders", 4), ("nested-arrays", 2), ("medium", 8), ("union-constants", 1), ("capacity-expressions", 1), ("depth1s", 8), ("depth1u", 8), ("depth2s", 48), ("depth2u", 32), ("aliases", 1)]
 FAMILIES_THOROUGH = FAMILIES_QUICK + [("depth3", 64)]
 
 
@@ -175,12 +188,17 @@ def plan(tier):
 
 
 def cases(shard, tier):
+    if shard["family"] == "capacity-expressions":
+        for i in range(len(CAPACITY_EXPRESSIONS)):
+            for where in ("varr", "varr-lt", "farr", "extent"):
+                yield {"kind": "capacity-expression", "i": i, "where": where, "desc": ["capacity-expression"]}
+        return
     if shard["family"] == "aliases":
         # distinct types built under ONE name, one after the other in one process (layout must not be cached by name / approximate equality)
         for a, b in itertools.permutations(range(len(ALIAS_POOL)), 2):
             yield {"alias": [a, b]}
         return
-    text_every = {"depth1s": 16, "depth1u": 16, "depth2s": 400, "depth2u": 400, "depth3": 200, "arrays": 0, "prims": 0, "boundary": 0, "union-constants": 0, "colliders": 0, "medium": 7}[shard["family"]]
+    text_every = {"depth1s": 16, "depth1u": 16, "depth2s": 400, "depth2u": 400, "depth3": 200, "arrays": 0, "prims": 0, "boundary": 0, "union-constants": 0, "colliders": 0, "nested-arrays": 0, "medium": 7}[shard["family"]]
     for i, d in enumerate(family(shard["family"], tier)):
         if i % shard["parts"] == shard["part"]:
             yield {"desc": d, "text": bool(text_every and (i // shard["parts"]) % text_every == 0) and not T.has_array_of_arrays(d)}
@@ -290,7 +308,47 @@ def check_union_constants(case, R: engine.Acc):
         R.violation("union-tag-width", "variants start right after the tag", case, observed=sorted(offs), expected=[w])
 
 
+# Capacities and extents written as EXPRESSIONS: the layout follows the value the Specification gives the expression
+# (right-associative **, left-associative - / // %, unary signs, literals in every base, parentheses)
+CAPACITY_EXPRESSIONS = [
+    ("2 ** 2 ** 3", 256), ("2 ** 3 ** 2 - 500", 12), ("2 * 3 + 1", 7), ("(1 + 1) * 4", 8), ("0x10", 16), ("1_0", 10), ("0b101", 5), ("0o17", 15), ("7 / 2 * 2", 7), ("7 % 4", 3), ("2 ** 3 * 2", 16), ("-1 + 10", 9), ("2 ** -1 * 8", 4),
+    ("20 - 5 - 3", 12), ("64 / 4 / 2", 8), ("2 ** 2 ** 2 ** 1", 16), ("+(3)", 3), ("255 + 1", 256), ("2 ** 16 - 1", 65535), ("2 ** 16", 65536), ("2 ** 8 - 1", 255), ("1 + 2 ** 32", 2**32 + 1), ("{1, 5, 3}.max", 5), ("3 * -(-2)", 6), ("1.5 * 4", 6), ("2e1", 20),
+]
+
+
+def check_capacity_expression(case, R: engine.Acc):
+    expr, value = CAPACITY_EXPRESSIONS[case["i"]]
+    where = case["where"]
+    u8 = ["uint", 8, "s"]
+    if where == "varr":
+        text, desc = "uint8[<=%s] a\nbool b\n@sealed\n" % expr, ["struct", [["varr", u8, value], ["bool"]]]
+    elif where == "varr-lt":
+        text, desc = "uint8[<%s + 1] a\nbool b\n@sealed\n" % expr, ["struct", [["varr", u8, value], ["bool"]]]
+    elif where == "farr":
+        text, desc = "bool b\nuint8[%s] a\n@sealed\n" % expr, ["struct", [["bool"], ["farr", u8, value]]]
+    else:
+        text, desc = "uint8 a\n@extent (%s) * 8\n" % expr, ["delim", ["struct", [u8]], value * 8]
+    R.case(["capacity-expression", expr, where], nontrivial=True, sample=False)
+    o = api.read_namespace_tree({"rns/T.1.0.dsdl": text}, "rns")
+    if where == "extent" and value * 8 < 8:
+        return
+    if o.error is not None:
+        R.violation("capacity-expression-rejected", "a capacity / extent given as a constant expression is evaluated as the Specification defines", case, observed=o.error, expected=value)
+        return
+    got = o.types[0]
+    exp = dump.composite(T.build(desc))
+    obs = {"bls": got["bls"], "extent": got["extent"], "fields": [(a["type"].get("capacity"), a["type"].get("prefix"), a["type"]["bls"]) for a in got["attributes"]]}
+    want = {"bls": exp["bls"], "extent": exp["extent"], "fields": [(a["type"].get("capacity"), a["type"].get("prefix"), a["type"]["bls"]) for a in exp["attributes"]]}
+    if obs != want:
+        R.outcome("capacity-expression-differs")
+        R.violation("layout-differs:capacity-expression:" + where, "the layout follows the value of the capacity / extent expression (Specification precedence and associativity)", case, observed=obs, expected=want)
+    else:
+        R.outcome("capacity-expression")
+
+
 def check_case(case, R: engine.Acc):
+    if case.get("kind") == "capacity-expression":
+        return check_capacity_expression(case, R)
     if "alias" in case:
         return check_alias(case, R)
     if case["desc"][0] == "union+consts":
